@@ -1,15 +1,23 @@
 //@unit props=C11,C12,C20,C13 tier=quick rlimit=30
 //@file src/repr/adjacency_matrix/mod.rs
 use vstd::prelude::*;
+use vstd::set_lib::*;
 use vstd::slice::SliceIndexSpec;
 use vstd::std_specs::iter::IteratorSpec;
+use std::collections::BTreeSet;
 verus! {
 global size_of usize == 8;
 //@include prelude/std_contracts.rs
 //@include prelude/matrix_std.rs
+// needed by the imported matrix_degrees fragment (E12 wrappers vx_count / vx_sum, usize::count_ones)
+//@include prelude/iter_wrappers.rs
+//@include prelude/blanket_std.rs
 
 //@import units/inc/matrix_core.inc.rs
 //@import units/inc/matrix_iter.inc.rs
+// `AdjacencyMatrix::size` is PROVED in unit matrix_degrees (`r == set_cells(*self).len()`); that fragment needs matrix_queries
+//@import units/inc/matrix_queries.inc.rs
+//@import units/inc/matrix_degrees.inc.rs
 
 //@include units/inc/matrix_ops.inc.rs
 } // verus!
